@@ -243,6 +243,69 @@ def run_random(ctx, spec):
     t2g = R.t2grids
     install_quiescent(ctx)
     rng = ctx.rng
+    if ctx.shard % 4 == 0:
+        # a fixed sweep in front of the random part: every naming convention x atmosphere type x level / stepped ground
+        # surface, grid shuffled and put back into the geometry's order
+        import random
+        mg = R.mulgrids
+        for conv in (0, 1, 2):
+            for atm in (0, 1, 2):
+                for stepped in (False, True):
+                    geo = mg.mulgrid().rectangular([10., 20., 15., 12.], [8., 9., 11.], [5., 6., 7., 8.], convention=conv, atmos_type=atm)
+                    if stepped:
+                        rr = random.Random(conv * 7 + atm)
+                        for k, col in enumerate(geo.columnlist):
+                            col.surface = [0.0, -3.0, -5.0, -8.5, -11.0, -14.0][(k * 5 + rr.randint(0, 2)) % 6]
+                            geo.set_column_num_layers(col)
+                        geo.setup_block_name_index()
+                        geo.setup_block_connection_name_index()
+                    case = {'geometry': 'sweep conv=%d atm=%d stepped=%s' % (conv, atm, stepped), 'ops': [['reorder', 'shuffled'], ['reorder', 'geo']]}
+                    with ctx.guard(case, where='reorder-to-geometry-order') as gd:
+                        g = t2g.t2grid().fromgeo(geo)
+                        perm = [b.name for b in g.blocklist]
+                        rng.shuffle(perm)
+                        cons = [tuple(b.name for b in c.block) for c in g.connectionlist]
+                        rng.shuffle(cons)
+                        nb, nc = g.num_blocks, g.num_connections
+                        g.reorder(block_names=perm, connection_names=[c[::-1] if rng.random() < 0.3 else c for c in cons])
+                        g.reorder(geo=geo)
+                        ctx.count('reorders_by_geometry')
+                        ctx.evaluated()
+                        ctx.see('reorder_by_geometry', 'atmosphere type %d, %s surface' % (atm, 'stepped' if stepped else 'level'))
+                        bad = GM.grid_invariants(g)
+                        if g.num_blocks != nb or g.num_connections != nc or [b.name for b in g.blocklist] != list(geo.block_name_list) or bad:
+                            ctx.violation('reorder-by-geometry-changes-grid', 'reorder(geo=...) after a shuffle: %d blocks, %d connections before; %d, %d after; block order %s the geometry\'s; %s' % (
+                                nb, nc, g.num_blocks, g.num_connections, 'is' if [b.name for b in g.blocklist] == list(geo.block_name_list) else 'is not', bad[:1]), case)
+                    # the rarer single edits, each once on every one of these grids
+                    for edit in ('add_block[same-object-connected]', 'delete_block+add_block[same-object]', 'add_block[replace-connected]', 'add_connection[replace]',
+                                 'embed[fresh-blocks]'):
+                        c2 = {'geometry': case['geometry'], 'ops': [[edit]]}
+                        with ctx.guard(c2, where='sweep:' + edit) as gd:
+                            g = t2g.t2grid().fromgeo(geo)
+                            blk = g.blocklist[len(g.blocklist) // 2]
+                            if edit.startswith('add_block[same'):
+                                g.add_block(blk)
+                            elif edit.startswith('delete_block+'):
+                                g.delete_block(blk.name)
+                                g.add_block(blk)
+                            elif edit.startswith('add_block[replace'):
+                                g.add_block(t2g.t2block(blk.name, blk.volume * 2.0, blk.rocktype, centre=blk.centre))
+                            elif edit.startswith('add_connection'):
+                                old = g.connectionlist[len(g.connectionlist) // 2]
+                                g.add_connection(t2g.t2connection(list(old.block), old.direction, [d * 2.0 for d in old.distance], old.area, old.dircos))
+                            else:
+                                sub = t2g.t2grid()
+                                sub.add_rocktype(t2g.rocktype(name='subrk'))
+                                for n in ('SUB10', 'SUB11'):
+                                    sub.add_block(t2g.t2block(n, blk.volume / 10.0, sub.rocktype['subrk']))
+                                sub.add_connection(t2g.t2connection([sub.blocklist[0], sub.blocklist[1]], 1, [1., 1.], 1., 0.))
+                                res = g.embed(sub, t2g.t2connection([t2g.t2block(blk.name, blk.volume, blk.rocktype), t2g.t2block('SUB10', blk.volume / 10.0, sub.rocktype['subrk'])], 1, [1., 1.], 1., 0.))
+                                g = res if res is not None else g
+                            ctx.evaluated()
+                            ctx.see('operation_kinds_random', edit.split('[')[0] if not edit.startswith('embed') else 'embed')
+                            ctx.count('sweep_edits')
+                            for kind, text in GM.grid_invariants(g)[:2]:
+                                ctx.violation('invariant:%s:after:%s' % (kind, edit), text, c2)
     for it in range(spec['n']):
         geo = small_geo(ctx)
         ops_done = []
@@ -327,8 +390,16 @@ def run_random(ctx, spec):
                     g.reorder(block_names=perm, connection_names=cons)
                 elif r < 0.36:
                     n = rng.choice(names)
-                    op = ('delete_block', n)
-                    g.delete_block(n)
+                    if rng.random() < 0.3:
+                        # taken out and put back: the very object that was deleted is added again (it comes back without
+                        # connections: they were deleted with it)
+                        blk = g.block[n]
+                        op = ('delete_block+add_block[same-object]', n)
+                        g.delete_block(n)
+                        g.add_block(blk)
+                    else:
+                        op = ('delete_block', n)
+                        g.delete_block(n)
                 elif r < 0.38:
                     # add_block() / add_connection() for a name that exists: documented as replacing the old object
                     if rng.random() < 0.5 and g.connectionlist:
@@ -415,12 +486,21 @@ def run_random(ctx, spec):
                     vf = [rng.uniform(0.05, 1.0) for _ in range(nf)]
                     blocks = None if rng.random() < 0.5 else rng.sample(
                         [b.name for b in g.blocklist if not b.atmosphere], max(1, len(names) // 3))
-                    op = ('minc', vf, 'partial' if blocks else 'full')
-                    g.minc(vf, spacing=rng.uniform(5, 100), num_fracture_planes=rng.randint(1, 3), blocks=blocks)
+                    sel = blocks if blocks else [b.name for b in g.blocklist]
+                    if len(set(n[1:] for n in sel)) == len(sel):
+                        op = ('minc', vf, 'partial' if blocks else 'full')
+                        g.minc(vf, spacing=rng.uniform(5, 100), num_fracture_planes=rng.randint(1, 3), blocks=blocks)
+                    # (else: two blocks whose default matrix-block names coincide - the documented outcome is the loud failure
+                    #  exercised by the clashing-names operation above, not something to run into here)
                 elif r < 0.86:
                     # add a second, disjoint grid
                     other = t2g.t2grid()
-                    oname = 'o%04d' % (step + 100 * it)     # a rock type name not yet in use
+                    oname = 'o%04d' % (step + 100 * it)     # a rock type name not yet in use ...
+                    if rng.random() < 0.5 and g.rocktypelist:
+                        # ... or one the first grid uses as well (every grid made by fromgeo() has its own 'dfalt'): the sum
+                        # then registers ONE rock type of that name, and every block of the sum uses that one
+                        oname = rng.choice([x.name for x in g.rocktypelist])
+                        ctx.count('grids_added_sharing_a_rock_type_name')
                     other.add_rocktype(t2g.rocktype(name=oname))
                     tag = 'Z%s' % rng.choice('ABCDEFGHIJ')
                     onames = ['%s%s%02d' % (tag, rng.choice('KLMNOP'), i) for i in range(10, 13)]
@@ -435,8 +515,18 @@ def run_random(ctx, spec):
                     else:
                         host = rng.choice([b for b in g.blocklist])
                         if host.volume > 10.0:
-                            op = ('embed', host.name)
-                            res = g.embed(other, t2g.t2connection([host, other.blocklist[0]], 1, [1., 1.], 1., 0.))
+                            # the connection that ties the sub-grid in names its two blocks: given as the grids' own objects,
+                            # or as other objects of the same names (a copy of the grid, blocks made on the spot)
+                            style = rng.choice(['own', 'own', 'fresh', 'copied'])
+                            hb, sb = host, other.blocklist[0]
+                            if style == 'fresh':
+                                hb, sb = t2g.t2block(host.name, host.volume, host.rocktype), t2g.t2block(sb.name, sb.volume, sb.rocktype)
+                            elif style == 'copied':
+                                import copy
+                                hb = copy.copy(host)
+                                hb.connection_name = set(host.connection_name)
+                            op = ('embed[%s-blocks]' % style, host.name)
+                            res = g.embed(other, t2g.t2connection([hb, sb], 1, [1., 1.], 1., 0.))
                             if res is not None:
                                 g = res
                 elif r < 0.9:
@@ -444,7 +534,7 @@ def run_random(ctx, spec):
                     # only meaningful while the grid still is the geometry's grid
                     # (whether it still is, is known from the history of the sequence - no block or connection added or
                     #  deleted since fromgeo() - not from the geometry's connection list, which is part of what is under test)
-                    touched = any(o[0].split('[')[0] in ('delete_block', 'delete_connection', 'add_connection', 'minc', '__add__', 'embed', 'add_block', 'rename_blocks') for o in ops_done)
+                    touched = any(o[0].split('[')[0] in ('delete_block', 'delete_connection', 'add_connection', 'minc', '__add__', 'embed', 'add_block', 'rename_blocks', 'delete_block+add_block') for o in ops_done)
                     if not touched and set(geo.block_name_list) == set(b.name for b in g.blocklist):
                         nb, nc = g.num_blocks, g.num_connections
                         g.reorder(geo=geo)
